@@ -74,7 +74,8 @@ let snapshot (d : dstate) =
       (match i.i_pend with Some _ -> 1 | None -> 0) (int_of_n (mask_num i.i_mask))
       (b01 i.i_in_read) (b01 i.i_in_write) (if i.i_ds_ext then 'E' else 'I')
       (match i.i_up with UIdle -> 'I' | UMsg _ -> 'B') (int_of_n (bytes_of i.i_buf)) (int_of_n x.x_listen))) cs;
-  Buffer.add_string b (Printf.sprintf "D[sp=%d pa=%d list=%s]" (int_of_n d.d_size_pex) (b01 d.d_pex_active) (entries_hex d.d_list));
+  (* av: PeerList available size; incoming ut_pex messages are only generated for private torrents, which never take them *)
+  Buffer.add_string b (Printf.sprintf "D[sp=%d pa=%d list=%s av=0]" (int_of_n d.d_size_pex) (b01 d.d_pex_active) (entries_hex d.d_list));
   Buffer.contents b
 
 let parse_hs (s : string) : hs =
@@ -104,6 +105,11 @@ let parse_item (s : string) : msg * n =
   | 'H' ->
       let body = String.sub s 1 (String.length s - 1) in
       (MHandshake (parse_hs body), n_of_int (6 + String.length (hs_text body)))
+  | 'X' ->
+      let hexs = String.sub s 1 (String.length s - 1) in
+      let n = String.length hexs / 2 in
+      let text = "d5:added" ^ string_of_int n ^ ":" ^ String.make n 'x' ^ "e" in
+      (MExt (n_of_int 1, z_of_int 0, z_of_int 0), n_of_int (6 + String.length text))   (* ut_pex without effect in the model's domain *)
   | 'M' ->
       (match String.split_on_char '.' (String.sub s 1 (String.length s - 1)) with
        | [e; t; p] ->
@@ -148,7 +154,8 @@ let run_case header ops =
   let pad = List.init padn (fun g -> byte_tab.(content_byte seed g)) in
   let meta = bytes_of_hex (get "pre") @ pad @ bytes_of_hex (get "suf") in
   let fx = fx_of_env () in
-  let d = ref (start fx (get "priv" = "1") meta (n_of_string (get "minp"))) in
+  let notick = (try get "notick" = "1" with Not_found -> false) in
+  let d = ref ((if notick then init else start fx) (get "priv" = "1") meta (n_of_string (get "minp"))) in
   let parts = ref [] in
   (try
     List.iter (fun tok ->
